@@ -45,6 +45,63 @@ def source_of(case):
 class QueryBudget(Exception):
     pass
 
+# ---- object identity of variables that findall/3 collects from different answers
+# The model names cells by a counter that is threaded along one search path, so it cannot say whether two variables
+# that were created while a findall goal ran and were collected from DIFFERENT answers are the same object (they are,
+# iff they were created before the choice point at which the two answers diverge).  The implementation is the
+# authority there; the harness only has to know WHEN this happened: every Variable gets a creation serial number
+# (patched in here, in the harness process, not in the repository) and findall/3 of the engine under test is wrapped
+# so that it notices a collected variable that was created after the findall call started.  For such a query the
+# comparison with the model ignores the identity of unbound variables (everything else is compared as usual).
+_SERIAL = [0]
+
+def _install_serials(engine):
+    if getattr(engine.Variable, '_verif_serials', False):
+        return
+    orig = engine.Variable.__init__
+    def __init__(self, *a, **k):
+        orig(self, *a, **k)
+        _SERIAL[0] += 1
+        self._verif_serial = _SERIAL[0]
+    engine.Variable.__init__ = __init__
+    engine.Variable._verif_serials = True
+
+def _term_variables(engine, t, acc):
+    t = engine.get_value(t)
+    if isinstance(t, engine.Variable):
+        acc.append(t)
+    elif isinstance(t, engine.Functor):
+        for a in t._args:
+            _term_variables(engine, a, acc)
+    return acc
+
+def watch_findall(yp):
+    from yldprolog import engine
+    _install_serials(engine)
+    key = 'findall_3'
+    orig = yp.eval_context.get(key)
+    if orig is None or getattr(orig, '_verif_wrapped', False):
+        return
+    def findall_3(template, goal, bag):
+        start = _SERIAL[0]
+        for r in orig(template, goal, bag):
+            try:
+                if any(getattr(v, '_verif_serial', 0) > start for v in _term_variables(engine, bag, [])):
+                    yp._verif_findall_inner = True
+            except RecursionError:
+                yp._verif_findall_inner = True
+            yield r
+    findall_3._verif_wrapped = True
+    yp.eval_context[key] = findall_3
+
+def anon_vars(o):
+    """observation with the identity of unbound variables forgotten"""
+    if isinstance(o, list):
+        if len(o) == 2 and o[0] == 3 and isinstance(o[1], int):
+            return [3, 0]
+        return [anon_vars(x) for x in o]
+    return o
+
 def _budget_alarm(signum, frame):
     raise QueryBudget()
 
@@ -62,6 +119,7 @@ def run_queries(yp, case, T_factory=None):
         end = 'done'
         n = 0
         g = None
+        yp._verif_findall_inner = False
         # per-query search budget: the enclosing per-case timer of the runner is suspended and re-armed afterwards
         outer_left, _ = signal.getitimer(signal.ITIMER_REAL)
         outer_handler = signal.signal(signal.SIGALRM, _budget_alarm)
@@ -97,7 +155,8 @@ def run_queries(yp, case, T_factory=None):
             if outer_left > 0:
                 signal.setitimer(signal.ITIMER_REAL, max(0.05, outer_left))
         leftover = [i for i in range(nq) if T.vars[i]._is_bound]
-        out.append({'answers': canon_answers(answers), 'count': n, 'end': end, 'leftover': leftover})
+        out.append({'answers': canon_answers(answers), 'count': n, 'end': end, 'leftover': leftover,
+                    'findall_inner': bool(getattr(yp, '_verif_findall_inner', False))})
     return out
 
 def impl(case):
@@ -108,6 +167,7 @@ def impl(case):
     except Exception as e:
         return {'rejected': type(e).__name__, 'msg': str(e)[:200], 'source': src}
     yp = engine.YP()
+    watch_findall(yp)
     yp.load_script_from_string(text)
     return {'queries': run_queries(yp, case)}
 
@@ -150,6 +210,11 @@ def compare(case, io, mo):
     for qi, vs in zip(idx, views):
         q, iq = case['queries'][qi], io['queries'][qi]
         ir, sld = vs[0], vs[1]
+        if iq.get('findall_inner'):
+            # see watch_findall: identity of unbound variables is not compared for this query
+            iq = dict(iq, answers=anon_vars(iq['answers']))
+            ir = dict(ir, answers=anon_vars(ir['answers'])) if 'answers' in ir else ir
+            sld = dict(sld, answers=anon_vars(sld['answers'])) if 'answers' in sld else sld
         sldr = vs[2] if len(vs) > 2 else None
         qtxt = ast_io.term_text(['fun', q[0], q[1]]) if q[1] else q[0]
         if ir.get('stuck'):
@@ -177,6 +242,10 @@ def compare_parts(case, io, mo):
     for qi, vs in zip(compared_queries(case, io), views):
         iq = io['queries'][qi]
         ir, sld = vs[0], vs[1]
+        if iq.get('findall_inner'):
+            iq = dict(iq, answers=anon_vars(iq['answers']))
+            ir = dict(ir, answers=anon_vars(ir['answers'])) if 'answers' in ir else ir
+            sld = dict(sld, answers=anon_vars(sld['answers'])) if 'answers' in sld else sld
         if ir.get('stuck') or ir.get('err') or sld.get('err'):
             continue
         if iq['answers'] != ir['answers'] or (iq['end'] == 'done' and iq['count'] != ir['count']): a = True
@@ -211,7 +280,7 @@ def shrink(case):
             yield dict(case, clauses=cl[:i] + [[name, args, body[1]]] + cl[i + 1:])
 
 def stats(cases, obs):
-    d = {'programs': len(cases), 'queries': 0, 'answers_hist': {'0': 0, '1': 0, '2-5': 0, '6+': 0}, 'nonground_answers': 0,
+    d = {'programs': len(cases), 'queries': 0, 'queries_where_findall_collected_inner_variables': 0, 'answers_hist': {'0': 0, '1': 0, '2-5': 0, '6+': 0}, 'nonground_answers': 0,
          'aliased_answers': 0, 'constructs': {}, 'ends': {}}
     for c, o in zip(cases, obs):
         cs = set()
@@ -223,6 +292,8 @@ def stats(cases, obs):
             continue
         for iq in o['queries']:
             d['queries'] += 1
+            if iq.get('findall_inner'):
+                d['queries_where_findall_collected_inner_variables'] += 1
             n = iq['count']
             k = '0' if n == 0 else '1' if n == 1 else '2-5' if n <= 5 else '6+'
             d['answers_hist'][k] += 1
